@@ -5,7 +5,8 @@ from . import pure
 
 NAMES = {10: 'Open', 11: 'OpenPoll', 12: 'Accept', 13: 'Write', 14: 'WriteV', 15: 'Read', 16: 'Shutdown',
          17: 'DropStream', 18: 'Deliver', 19: 'SendDgram', 20: 'GetDgram', 21: 'BindReq', 22: 'BindPoll',
-         23: 'NextBind', 24: 'BindReply', 25: 'BindDrop', 26: 'DropMux', 27: 'Inject', 28: 'End', 29: 'Permits'}
+         23: 'NextBind', 24: 'BindReply', 25: 'BindDrop', 26: 'DropMux', 27: 'Inject', 28: 'End', 29: 'Permits',
+         30: 'BridgeStart', 31: 'BridgePoll', 32: 'LocalFeed'}
 OPC = ['Connect', 'Acknowledge', 'Reset', 'Finish', 'Push', 'Bind', 'Datagram']
 
 
@@ -217,6 +218,7 @@ LABEL_SETS = {
     'C10': {27, 18},
     'C11': {19, 20, 18},
     'C15': {21, 22, 23, 24, 25, 18},
+    'C13': {30, 31, 32},
 }
 
 
